@@ -21,14 +21,16 @@ type verifTOCDecompressor struct{ toc *estargz.JTOC }
 var errVerif = errors.New("verif: model error")
 
 func (d *verifTOCDecompressor) Reader(r io.Reader) (io.ReadCloser, error) { return nil, errVerif }
-func (d *verifTOCDecompressor) FooterSize() int64                       { return 0 }
+func (d *verifTOCDecompressor) FooterSize() int64                         { return 0 }
 func (d *verifTOCDecompressor) ParseFooter(p []byte) (int64, int64, int64, error) {
 	return -1, -1, 0, nil
 }
 func (d *verifTOCDecompressor) ParseTOC(r io.Reader) (*estargz.JTOC, digest.Digest, error) {
 	return d.toc, "sha256:toc", nil
 }
-func (d *verifTOCDecompressor) DecompressTOC(r io.Reader) (io.ReadCloser, error) { return nil, errVerif }
+func (d *verifTOCDecompressor) DecompressTOC(r io.Reader) (io.ReadCloser, error) {
+	return nil, errVerif
+}
 
 type verifZeros struct{}
 
@@ -41,22 +43,26 @@ func (verifZeros) ReadAt(p []byte, off int64) (int, error) {
 
 var verifNames = []string{"a", "d", "d/a", "d/l"}
 
+func verifNameCount() int {
+	return len(verifNames)
+}
+
 func verifEntry() *estargz.TOCEntry {
 	e := &estargz.TOCEntry{}
 	switch vr.Choice("type", 5) {
 	case 0:
-		e.Type, e.Name = "reg", verifNames[vr.Choice("name", len(verifNames))]
+		e.Type, e.Name = "reg", verifNames[vr.Choice("name", verifNameCount())]
 		e.Size, e.ChunkSize, e.ChunkOffset, e.Offset = vr.I64("size"), vr.I64("chunksize"), vr.I64("chunkoffset"), vr.I64("offset")
 	case 1:
 		e.Type = "chunk"
 		e.ChunkSize, e.ChunkOffset, e.Offset = vr.I64("chunksize"), vr.I64("chunkoffset"), vr.I64("offset")
 	case 2:
-		e.Type, e.Name = "dir", verifNames[vr.Choice("name", len(verifNames))]+"/"
+		e.Type, e.Name = "dir", verifNames[vr.Choice("name", verifNameCount())]+"/"
 	case 3:
-		e.Type, e.Name = "hardlink", verifNames[vr.Choice("name", len(verifNames))]
-		e.LinkName = verifNames[vr.Choice("link", len(verifNames))]
+		e.Type, e.Name = "hardlink", verifNames[vr.Choice("name", verifNameCount())]
+		e.LinkName = verifNames[vr.Choice("link", verifNameCount())]
 	default:
-		e.Type, e.Name, e.LinkName = "symlink", verifNames[vr.Choice("name", len(verifNames))], "x"
+		e.Type, e.Name, e.LinkName = "symlink", verifNames[vr.Choice("name", verifNameCount())], "x"
 	}
 	return e
 }
@@ -64,10 +70,7 @@ func verifEntry() *estargz.TOCEntry {
 // C04/H3b: opening a layer whose TOC has adversarial structure through the memory metadata store, then walking,
 // stat-ing and opening everything: errors are fine, panics, unbounded recursion and endless loops are not.
 func VerifH_C04_memoryStoreWalk() {
-	k := 2
-	if vr.Tier() > 0 {
-		k = 3
-	}
+	k := 2 // three entries: 45 minutes for the estargz-level twin of this harness (C04_tocStructure, thorough); not repeated here
 	toc := &estargz.JTOC{Version: 1}
 	for i := 0; i < k; i++ {
 		toc.Entries = append(toc.Entries, verifEntry())
